@@ -11,9 +11,11 @@ CONSTANTS
   WholeOnly = FALSE
   Sizes = {1}
   FixCommonSnapshot = TRUE
+  Dev_StalePathReuse = FALSE
   GenDepth = 0
   GenHistory = TRUE
   GenReject = TRUE
+  GenOnlyAfterReject = FALSE
 VIEW StateView
 INVARIANT Emit
 CHECK_DEADLOCK FALSE
